@@ -259,8 +259,10 @@ impl Family for C06 {
               _ => None,
             };
             if let Some(s_at) = satisfied {
-              // the emissions in progress at that instant (possibly nested) may still run; later ones are judged
-              let horizon = horizon(s_at);
+              // the emissions in progress at that instant (possibly nested) may still run; later ones are judged.
+              // contains / all tear their source down *before* they deliver the verdict, so there even an
+              // emission attempted from inside the verdict's delivery is already judged
+              let horizon = if cop == "contains" || cop == "all" { s_at } else { horizon(s_at) };
               for i in &below {
                 let l = r.src_logs[*i].lock().unwrap();
                 if let Some(e) = l.emits.iter().find(|e| e.seq_start > horizon && e.sub_before) {
